@@ -102,7 +102,7 @@ impl TryFrom<Ansi> for Rgb {
     // @link https://gist.github.com/MightyPork/1d9bd3a3fd4eb1a661011560f6921b5b
     fn try_from(ansi: Ansi) -> Result<Self, Error> {
         match ansi.0 {
-            0..=16 => {
+            0..=15 => {
                 let hex_str = ANSI_RGB_CODE.get(ansi.0 as usize).unwrap();
                 let hex = Hex(hex_str.to_string());
                 Rgb::try_from(hex)
